@@ -9,7 +9,7 @@ from ..oracles import geodesic_exact as G
 
 RULE = ("start point anywhere (incl. equator and poles), azimuth in [0, 360] incl. cardinals, distance 0..20 000 km "
         "(uniform and log-uniform from 1 mm), 4 shipped ellipsoids + random (1/f in [280, 320]), float and the five angle "
-        "classes; non-trivial = distance > 1 m")
+        "classes (each argument possibly in its own), Python ints and numpy float64 incl. the distance; non-trivial = distance > 1 m")
 ASSUMPTIONS = ["oracle: direct geodesic by Gauss-Legendre quadrature of the exact integrals (gvp/oracles/geodesic_exact.py); "
                "self-tested on Karney's published example, equatorial, meridional and pole-crossing closed forms",
                "end-point separation is measured in the local metric sqrt((M dlat)^2 + (N cos(lat) dlon)^2), dlon modulo 360 "
